@@ -19,6 +19,7 @@ import (
 
 // Keyer computes keys for the values of one function.
 type Keyer struct {
+	fwdDepth     int
 	P            *Prog
 	Fn           *ssa.Function
 	memo         map[ssa.Value]string
@@ -416,6 +417,36 @@ func (k *Keyer) callKey(c *ssa.Call) string {
 		if getterLike(callee) {
 			unique = false
 		}
+		// a pure forwarder of the module (`func (x) certifiedBy(b) (*Block, bool) { return x.chain.Get(b.QC().Hash()) }`)
+		// is the call it forwards to, with the parameters replaced by the arguments
+		if inner := forwardedCall(k.P, callee); inner != nil && k.fwdDepth < 2 {
+			ck := NewKeyer(k.P, callee)
+			ck.NormGetters = k.NormGetters
+			ck.fwdDepth = k.fwdDepth + 1
+			ik := ck.callKey(inner)
+			if at := strings.LastIndex(ik, ")@b"); at >= 0 && !strings.ContainsAny(ik[at+2:], " ,()[]") {
+				ik = ik[:at+1] // the forwarded call's own site id; the forwarder's call site takes its place
+			}
+			args := make([]string, len(c.Call.Args))
+			for i, a := range c.Call.Args {
+				args[i] = k.Key(a)
+			}
+			ik = localIDRe.ReplaceAllString(ik, "@~"+callee.Name()+":b${1}i${2}")
+			ik = paramRe.ReplaceAllStringFunc(ik, func(m string) string {
+				i := 0
+				for _, ch := range m[1:] {
+					i = i*10 + int(ch-'0')
+				}
+				if i < len(args) {
+					return args[i]
+				}
+				return m
+			})
+			if unique {
+				ik += "@" + k.ids[c]
+			}
+			return ik
+		}
 		if k.NormGetters && strings.HasPrefix(callee.Name(), "Get") && len(c.Call.Args) == 1 && callee.Signature.Recv() != nil && k.P.isGenerated(callee) {
 			if f := accessorField(k.P, callee); f != "" {
 				return k.Key(c.Call.Args[0]) + "->" + f
@@ -515,4 +546,61 @@ func getterLike1(fn *ssa.Function) bool {
 		}
 	}
 	return n < 40
+}
+
+var fwdMemo = map[*ssa.Function]*ssa.Call{}
+var fwdSeen = map[*ssa.Function]bool{}
+
+// forwardedCall: fn is an unexported, non-generic function of the module whose single block
+// computes the arguments of one call with getters / field reads only and returns exactly that
+// call's result(s). The call is returned (nil otherwise).
+func forwardedCall(p *Prog, fn *ssa.Function) *ssa.Call {
+	if fwdSeen[fn] {
+		return fwdMemo[fn]
+	}
+	fwdSeen[fn] = true
+	if fn.Blocks == nil || len(fn.Blocks) != 1 || fn.Object() == nil || fn.Object().Exported() || fn.Synthetic != "" || !inModule(funcPkgPath(fn)) || fn.TypeParams().Len() > 0 {
+		return nil
+	}
+	var inner *ssa.Call
+	for _, in := range fn.Blocks[0].Instrs {
+		switch x := in.(type) {
+		case *ssa.Call:
+			if cal := x.Call.StaticCallee(); cal != nil && getterLike(cal) && !x.Call.IsInvoke() {
+				continue
+			}
+			if x.Call.IsInvoke() {
+				return nil
+			}
+			if inner != nil {
+				return nil
+			}
+			inner = x
+		case *ssa.FieldAddr, *ssa.Field, *ssa.UnOp, *ssa.Extract, *ssa.DebugRef, *ssa.Return, *ssa.ChangeType, *ssa.Convert:
+		default:
+			return nil
+		}
+	}
+	if inner == nil || inner.Call.StaticCallee() == nil || inner.Call.StaticCallee() == fn {
+		return nil
+	}
+	ret, ok := fn.Blocks[0].Instrs[len(fn.Blocks[0].Instrs)-1].(*ssa.Return)
+	if !ok {
+		return nil
+	}
+	if tup, isTup := inner.Type().(*types.Tuple); isTup {
+		if len(ret.Results) != tup.Len() {
+			return nil
+		}
+		for i, r := range ret.Results {
+			ex, ok := r.(*ssa.Extract)
+			if !ok || ex.Tuple != ssa.Value(inner) || ex.Index != i {
+				return nil
+			}
+		}
+	} else if len(ret.Results) != 1 || ret.Results[0] != ssa.Value(inner) {
+		return nil
+	}
+	fwdMemo[fn] = inner
+	return inner
 }
